@@ -78,6 +78,12 @@ func DateTimeFromProto(proto *dtpb.DateTime) (DateTime, error) {
 	case dtpb.DateTime_YEAR:
 		l = dtYearLayout
 	}
+	switch l {
+	case dtDayLayout, dtMonthLayout, dtYearLayout:
+		// Without a time of day the value is a calendar date: keep the day the
+		// element shows in its own time zone, on the UTC midnight the parser uses.
+		t = time.Date(t.Year(), t.Month(), t.Day(), 0, 0, 0, 0, time.UTC)
+	}
 	return DateTime{t, l}, nil
 }
 
